@@ -112,14 +112,16 @@ def tok_tiles(c0: int, c1: int, c2: int, c3: int, c4: int, c5: int) -> bool:
 # ------------------------------------------------------------------------------------------------
 # (3) tag dissection tiles every tag token
 # ------------------------------------------------------------------------------------------------
-# Reference "well-formed tag" grammar used only to delimit the known-finding class
-# malformed_attribute_syntax (tags whose attribute list is not well-formed HTML/XML attribute
-# syntax -- e.g. a quote inside an unquoted value, an unterminated quoted value -- are dissected by
-# match_tag with gaps, i.e. text is silently dropped).  The claim stays in force for every tag that
-# *is* well-formed by this grammar, whatever its characters.
-_WF_NAME = r"""[^\s=/>"'<]+"""
-_WF_ATTR = r"""[ \n\t\r]+%s(?:[ \n\t\r]*=[ \n\t\r]*(?:"[^"]*"|'[^']*'|[^\s"'=<>`]+))?""" % _WF_NAME
-_WF_TAG = re.compile(r"""</?%s(?:%s)*[ \n\t\r]*/?>\Z""" % (_WF_NAME, _WF_ATTR))
+# Known-finding class malformed_attribute_syntax: a tag token that contains a quote character
+# *outside* a well-formed quoted attribute value (= "..." / = '...'), i.e. a quote inside an unquoted
+# value or an unterminated quoted value.  parser.match_tag dissects such a tag with gaps (text is
+# silently dropped).  The claim stays in force for every other tag token.
+_QUOTED_VALUE = re.compile(r"""=[ \n\t\r]*(?:"[^"]*"|'[^']*')""")
+
+
+def _stray_quote(t):
+    rest = _QUOTED_VALUE.sub('=', t)
+    return ('"' in rest) or ("'" in rest)
 
 
 def known_excluded(s):
@@ -129,7 +131,7 @@ def known_excluded(s):
         for t in tk.iter_xml(s):
             if t.startswith('<') and not t.startswith('<!') and not t.startswith('<?') \
                     and t.endswith('>'):
-                if _WF_TAG.match(t) is None:
+                if _stray_quote(t):
                     return True
     if 'unterminated_end_tag' in ex:
         for t in tk.iter_xml(s):
